@@ -9,6 +9,7 @@ package pe
 import (
 	"encoding/json"
 	"fmt"
+	"regexp"
 	"strconv"
 	"strings"
 	"testing"
@@ -240,7 +241,7 @@ func TestC01_Main(t *testing.T) {
 	var cases []*peCase
 	if ev.Replay() == "" {
 		for k := 0; k < n; k++ {
-			cases = append(cases, gen.Example(int(ev.Seed())+k*7919))
+			cases = append(cases, gen.Example(int(ev.Seed())+k*15485863))
 		}
 	}
 	runParallel(t, r, cases, evalC01("TestC01_Main"))
@@ -253,4 +254,22 @@ func containsStr(l []string, x string) bool {
 		}
 	}
 	return false
+}
+
+var neLabel = regexp.MustCompile(`^not enforced \[([^\]]+)\]`)
+
+// observedClasses: which of the deliberately unjudged deviations a conversation showed
+// (once per conversation), for the class histogram of the evidence.
+func observedClasses(a *refamf.AMF) []string {
+	seen := map[string]bool{}
+	var out []string
+	for _, e := range a.Transcript {
+		for _, o := range e.Obs {
+			if m := neLabel.FindStringSubmatch(o); m != nil && !seen[m[1]] {
+				seen[m[1]] = true
+				out = append(out, "observed-not-judged:"+m[1])
+			}
+		}
+	}
+	return out
 }
